@@ -4,6 +4,7 @@
 #include <vector>
 #include <sstream>
 #include <nop/protocol.h>
+#include <nop/rpc/interface.h>
 #include <nop/serializer.h>
 #include <nop/utility/stream_reader.h>
 #include <nop/utility/stream_writer.h>
@@ -13,6 +14,7 @@ struct FungPair {
   bool ab, ba, aa, bb;            // IsFungible<A,B>, <B,A>, <A,A>, <B,B>
   bool sig_arg, sig_ret;          // IsFungible<void(A),void(B)>, IsFungible<A(int),B(int)>
   bool proto_write, proto_read;   // does Protocol<A>::Write / Read admit a B
+  bool bind_ref, bind_val, bind_mixed, bind_ret;   // does Method::Bind admit a handler whose B-typed signature is fungible with the method's A-typed one
 };
 // SFINAE probe: is Protocol<P>::Write(serializer, const T&) / Read(deserializer, T*) well-formed?
 template <typename P, typename T> struct ProtocolAdmits {
@@ -22,6 +24,14 @@ template <typename P, typename T> struct ProtocolAdmits {
   template <typename U> static auto r(int) -> decltype(nop::Protocol<P>::Read(static_cast<Des*>(nullptr), static_cast<U*>(nullptr)), std::true_type{});
   template <typename U> static std::false_type r(...);
   enum : bool { write = decltype(w<T>(0))::value, read = decltype(r<T>(0))::value };
+};
+// SFINAE probe of interface binding: the generator declares one interface per pair whose methods are written over A (NOP_METHOD cannot be used inside a
+// class template); the handler is written over B (by const reference, by value, one of each, as the return type)
+template <typename If, typename B> struct BindAdmits {
+  template <typename M, typename H> static auto t(int) -> decltype(M::Bind(std::declval<H>()), std::true_type{});
+  template <typename M, typename H> static std::false_type t(...);
+  enum : bool { by_ref = decltype(t<typename If::ByRef, int (*)(const B&)>(0))::value, by_val = decltype(t<typename If::ByVal, int (*)(B)>(0))::value,
+                mixed = decltype(t<typename If::ByRef, int (*)(B)>(0))::value, ret = decltype(t<typename If::Ret, B (*)(int)>(0))::value };
 };
 std::vector<FungPair> fung_pairs();
 }  // namespace vf
